@@ -189,7 +189,7 @@ func scripted() []script {
 			{K: "ConvertCoin", T: 1, A: 102, B: 102, X: 1500}, // the module escrows base coins
 			{K: "BridgeCallMsg", C: 1, A: 100, B: 100, Toks: [][2]int64{{1, 400}}},
 			{K: "BridgeCallResult", C: 1, ID: 1, Flag: false}, // older-rule refund: the bridge denom is parked in the erc20 module
-			{K: "ConvertDenom", T: 1, A: 100, B: 101, Src: 0, Tgt: 1, X: 300}, // base -> alias, paid to 101
+			{K: "ConvertDenom", T: 1, A: 100, B: 101, Src: 0, Tgt: 1, X: 150}, // base -> alias, paid to 101 (400 parked: enough for the amount twice)
 			{K: "ConvertDenom", T: 1, A: 101, B: 103, Src: 1, Tgt: 0, X: 120}, // alias -> base, paid to 103 (the module holds 1500 base in escrow)
 			{K: "ConvertDenom", T: 1, A: 101, B: 101, Src: 1, Tgt: 0, X: 30},
 			{K: "ConvertERC20", T: 2, A: 100, B: 100, X: 2000},
